@@ -116,6 +116,10 @@ func replayFile(path string) int {
 			addVio("C10.order", r.Source+" frames: reassembly store not empty after all frames arrived", cfg{fragOn: true}, r.Mtu, 0,
 				fmt.Sprintf("%+v", face.VerifC10DumpStore(rcv)), func() map[string]any { return nil })
 		}
+	case "B-sequence-distance":
+		// the family is small and deterministic: re-run all of it (the violating sets are printed)
+		putCtx(ctx)
+		enumSeqDistance(true)
 	default:
 		fmt.Printf("CHECK-ERROR: replay file has no enumeration field\n")
 		return 2
